@@ -18,13 +18,18 @@ TRUSTED = [
 ]
 
 
+def _is(m, base):
+    """an instance of `base` that computes base's forward (the class itself or a subclass that does not override forward)"""
+    return isinstance(m, base) and type(m).forward is base.forward
+
+
 def mkind(m):
     from torchlogix.layers import LogicDense, LogicConv2d, LogicConv3d, OrPooling, GroupSum
-    if type(m) is LogicDense:
+    if _is(m, LogicDense):
         if any(int(i.min()) < 0 or int(i.max()) >= m.in_dim for i in m.indices):
             return '(MForeign "LogicDense with wiring outside its input")'
         return f"MDense {m.in_dim} {m.out_dim}"
-    if type(m) in (LogicConv2d, LogicConv3d):
+    if _is(m, LogicConv2d) or _is(m, LogicConv3d):
         dims = len(m.in_dim)
         lim = [int(n) + 2 * int(m.padding or 0) for n in m.in_dim] + [m.channels]
         for t in m.indices[0]:
@@ -34,15 +39,17 @@ def mkind(m):
 
         rf = list(m.receptive_field_size) if isinstance(m.receptive_field_size, (tuple, list)) else [m.receptive_field_size] * dims
         return f"MConv {m.channels} {nets._nl(m.in_dim)} {nets._nl(rf)} {m.stride} {m.padding} {m.num_kernels}"
-    if type(m) is OrPooling:
+    if _is(m, OrPooling):
         return f"MPool {m.kernel_size} {m.stride} {m.padding}"
-    if type(m) is torch.nn.Flatten:
+    if _is(m, torch.nn.Flatten):
         if (m.start_dim, m.end_dim) != (1, -1):
             return f'(MForeign "Flatten({m.start_dim},{m.end_dim})")'     # not the flatten the emitters implement
         return "MFlatten"
-    if type(m) is GroupSum:
+    if _is(m, GroupSum):
+        if bool(torch.as_tensor(m.beta).ne(0).any()):
+            return '(MForeign "GroupSum with an offset")'          # the library returns the counts: an offset cannot be expressed
         return f"MGroupSum {m.k}"
-    if type(m) is torch.nn.Identity:
+    if _is(m, torch.nn.Identity):
         return "MIdentity"
     return f'(MForeign "{type(m).__name__}")'
 
@@ -150,6 +157,37 @@ def catalogue(ck):
     add("container-own-forward", lambda: OrChain(D(4, 4), D(4, 4)))
     add("container-plain-subclass", lambda: PlainSub(D(4, 6), D(6, 4), G(2)))
     add("container-modulelist", lambda: torch.nn.ModuleList([D(4, 6), D(6, 4)]))
+    # modules that are instances of a supported class but compute something else (own forward) are foreign; subclasses that keep the
+    # forward are the layer itself
+    from torchlogix.layers import LogicDense as LD_, OrPooling as OP_, GroupSum as GS_
+
+    class NegatedDense(LD_):
+        def forward(self, x):
+            return 1 - super().forward(x)
+
+    class MinPooling(OP_):
+        def forward(self, x):
+            return -super().forward(-x)
+
+    class Not(torch.nn.Identity):
+        def forward(self, x):
+            return 1 - x
+
+    class HalfSum(GS_):
+        def forward(self, x):
+            return super().forward(x) / 2
+
+    class MyDense(LD_):
+        pass
+    add("override-dense", lambda: S(NegatedDense(4, 6, device="cpu"), D(6, 4), G(2)))
+    add("override-pool", lambda: S(C(4, 1, 2), MinPooling(2, 1, 0), F(), G(2)))
+    add("override-identity", lambda: S(D(4, 6), Not(), D(6, 4), G(2)))
+    add("override-groupsum", lambda: S(D(4, 6), HalfSum(2, device="cpu")))
+    add("plain-subclass-dense", lambda: S(MyDense(4, 6, device="cpu"), D(6, 4), G(2)))
+    # an offset on the group sum cannot be expressed by a library that returns counts
+    add("groupsum-beta", lambda: S(D(4, 6), GS_(3, beta=0.5, device="cpu")))
+    add("groupsum-beta-per-class", lambda: S(D(4, 6), GS_(3, beta=torch.tensor([0.0, 0.0, 4.0]), device="cpu")))
+    add("groupsum-beta-zero-tensor", lambda: S(D(4, 6), GS_(3, beta=torch.zeros(3), device="cpu")))
     add("empty", lambda: S())
     add("identity-only", lambda: S(I(), I()))
     return cases
@@ -222,6 +260,47 @@ def run(ck: Check):
                 # the torch model itself cannot be evaluated / is not of the supported form, yet it compiled
                 ck.disagree("container compiled although its eval-mode function cannot be reproduced (unsupported structure accepted)",
                             case, observed=repr(e)[:300], signature={"name": name, "what": "accepted-unsupported"})
+    # the model changes between the constructor and compile() (the checkpoint is loaded afterwards, training goes on, a second
+    # compile follows): the library must compute the model as it is when compile() runs
+    for kind in ("dense", "conv"):
+        for change in ("load_state_dict", "in-place", "recompile-after-change"):
+            mkm = (lambda: nets.make_dense(rng, 5, [8, 6], k=2)) if kind == "dense" else \
+                  (lambda: nets.make_custom(rng, (1, 4, 4), [("conv", dict(K=2, depth=1, rf=2)), ("flatten",), ("dense", 6), ("gs", 2)]))
+            torch.manual_seed(ck.seed + 5)
+            model = mkm()
+            torch.manual_seed(ck.seed + 6)
+            other = mkm()
+            case = {"kind": "model-changed-before-compile", "model": kind, "change": change}
+            ck.case(case, nontrivial=True, kind="stale-snapshot")
+            try:
+                net = compiled.build(model, 8)
+                if change == "recompile-after-change":
+                    compiled.compile_net(net)
+                if change == "in-place":
+                    with torch.no_grad():
+                        for p_ in model.parameters():
+                            p_.copy_(torch.randn_like(p_))
+                else:
+                    model.load_state_dict(other.state_dict())
+                compiled.compile_net(net)
+                spec = nets.extract(model)
+                n_in = int(np.prod(spec["input_shape"]))
+                rws, _ = nets.input_rows(rng, n_in, 8)
+                x = torch.tensor(rws, dtype=torch.float32).reshape(len(rws), *spec["input_shape"])
+                model.eval()
+                with torch.no_grad():
+                    y = model(x)
+                exp = [[round(v * (spec["tau"] or 1.0)) for v in r] for r in y.reshape(len(rws), -1).tolist()]
+                got = [list(np.array(r).reshape(-1)) for r in
+                       compiled.forward(net, np.array(rws, dtype=bool).reshape(len(rws), *spec["input_shape"]).tolist())]
+            except Exception as e:
+                ck.disagree("compiling a model that changed after the CompiledLogicNet was constructed fails", case, observed=repr(e)[:300],
+                            signature={"what": "stale-snapshot", "kind": "error"})
+                continue
+            if got != exp:
+                nbad = sum(1 for a_, b_ in zip(got, exp) if a_ != b_)
+                ck.disagree("compile() built the library of the model as it was when the CompiledLogicNet was constructed, not as it is now",
+                            dict(case, differing_rows=nbad, rows=len(exp)), signature={"what": "stale-snapshot", "kind": "wrong"})
     # decision model in the kernel
     txt = ("From Coq Require Import String List Arith. Import ListNotations.\nFrom TLX Require Import Model.Parse.\nLocal Open Scope string_scope.\n"
            "Eval vm_compute in [" + ";\n ".join(
